@@ -87,6 +87,30 @@ def run(ctx):
              'overwrites (zeroed first), or by the stream position; or the loop condition is a counter advanced by >= 1 on every iteration whose type cannot wrap before the bound', floor=25)
     loop_io(ctx, prog, eff)
 
+    ctx.rule('HOOK-DIV', 'sf_current_byterate and every function installed in the byterate slot: each integer division or remainder whose divisor is not a non-zero constant is reached only with the '
+             'divisor proved non-zero by A-PENT (a file whose header announces no frames must not raise SIGFPE in a query)', floor=3)
+    from engine.model import int_type as _it3
+    n_hd = 0
+    for g in [prog.fn('sf_current_byterate', 'sndfile.c')] + sorted(prog.slot_fns('byterate'), key=lambda g_: (g_.file, g_.line)):
+        bdg = Bounds(prog, g, eff)
+        k_ = 0
+        for x in g.walk():
+            if x['k'] not in ('BinaryOperator', 'CompoundAssignOperator') or x.get('op') not in ('/', '%', '/=', '%=') or not _it3(x.get('t')):
+                continue
+            d = g.unwrap(g.N[x['kids'][1]])
+            if d.get('v') is not None and d['v'] != 0:
+                continue
+            pt_ = g.cfg.point(x)
+            if pt_ is None:
+                continue
+            n_hd += 1
+            k_ += 1
+            b_ = bdg.ev_at(g.N[x['kids'][1]], pt_)
+            ok_ = (b_.lo is not None and b_.lo >= 1) or (b_.hi is not None and b_.hi <= -1) or ('!=', '0') in b_.lbs or ('>', '0') in b_.lbs
+            ctx.ob('HOOK-DIV', '%s:#%d' % (g.name, k_), ok_, g.loc(x), 'divisor `%s` %s' % (g.s(d)[:40], 'is non-zero here (%r)' % b_ if ok_ else
+                   'is NOT proved non-zero (%r): a file with that field 0 makes the query divide by zero' % b_), None)
+    ctx.require(n_hd >= 3, 'only %d divisions found in the byterate functions' % n_hd)
+
     ctx.rule('OPEN-GATE', 'psf_open_file: the success return is dominated by `validate_sfinfo (&psf->sf) == 0 -> error` and `validate_psf (psf) == 0 -> error`; the validators contain the documented comparisons; '
              'sf_open / sf_open_fd / sf_open_virtual return only psf_open_file (...) or NULL', floor=12)
     f = prog.fn('psf_open_file', 'sndfile.c')
